@@ -41,6 +41,13 @@ def scan(m, where):
         # a number that is not a Quantity: only SymPy's structural numbers are allowed (the coefficient -1 of a negation or
         # difference, exponents); any other bare number multiplied or added into an equation has no unit at all
         import sympy
+        exponents = {p.exp for p in eq.atoms(sympy.Pow)}
+        floats = [a for a in eq.atoms(sympy.Float) if not isinstance(a, M.Quantity) and a not in exponents]
+        if floats:
+            # every number of a model is a Quantity; SymPy's own structural numbers are Integers / Rationals, never Floats
+            bad.append(('%s: bare floating-point number(s) %s (no Quantity, hence no unit) in equation for %s'
+                        % (where, [str(a) for a in floats[:3]], eq.lhs), {'where': where}))
+            continue
         for sub in sympy.preorder_traversal(eq.rhs):
             bare = [a for a in getattr(sub, 'args', ()) if isinstance(a, sympy.Number) and not isinstance(a, M.Quantity)]
             if not bare:
@@ -213,18 +220,39 @@ def run_api_singular(seed):
         for j in range(rng.randint(1, 3)):
             a = m.add_variable('a%d' % j, d)
             slope = rng.choice([0.16, -0.04, 0.1, -1.0])
-            U = q(slope, per_mV) * V + q(rng.choice([1.6, -0.5, 2.0, 0.25]), d)
+            named = rng.random() < 0.35
+
+            def num(x, u, tag):
+                # a number, or (named) a constant parameter defined by its own variable and equation
+                if not named:
+                    return q(x, u)
+                kv = m.add_variable('k%d_%s' % (j, tag), u)
+                m.add_equation(sp.Eq(kv, q(x, u)))
+                return kv
+            offs = rng.choice([-10.0, 30.0, 4.0, -2.5])
+            if rng.random() < 0.5:
+                U = num(slope, per_mV, 's') * V + q(-slope * offs, d)
+            else:
+                U = num(slope, per_mV, 's') * (V - num(offs, mV, 'o'))
+
+            def pattern(U, form):
+                return [U / (EXP(U) - q(1, d)), U / (q(1, d) - EXP(U)), (EXP(U) - q(1, d)) / U, (q(1, d) - EXP(U)) / U][form]
             form = rng.randrange(4)
-            ghk = [U / (EXP(U) - q(1, d)), U / (q(1, d) - EXP(U)), (EXP(U) - q(1, d)) / U, (q(1, d) - EXP(U)) / U][form]
-            shape = rng.randrange(4)
+            ghk = pattern(U, form)
+            shape = rng.randrange(6)
             if shape == 0:
                 rhs = q(rng.choice([2, 0.5, 3]), d) * ghk
             elif shape == 1:
                 rhs = sp.Pow(q(2, d) + ghk, -1.0)
             elif shape == 2:
                 rhs = sp.Pow(q(2, d) + ghk, -1)
-            else:
+            elif shape == 3:
                 rhs = q(1.5, d) + ghk
+            else:
+                # two terms with the SAME singular point and different slopes (their repair windows are merged)
+                slope2 = rng.choice([s2 for s2 in (0.26, -0.08, 0.5, -2.0) if s2 != slope])
+                U2 = q(slope2, per_mV) * (V - q(offs, mV)) if shape == 4 else q(slope2, per_mV) * V + q(-slope2 * offs, d)
+                rhs = ghk + pattern(U2, rng.randrange(4)) * q(rng.choice([1, 2.5]), d)
             m.add_equation(sp.Eq(a, rhs))
             names.append(a)
         m.add_equation(sp.Eq(sp.Derivative(V, t), sum(names[1:], names[0]) * q(1, mV_per_ms)))
